@@ -6,7 +6,7 @@ CONSTANTS
   BindMethods = {"GET", "POST", "*"}
   BindVerbs = {"", "v"}
   MaxBindings = 2
-  ReqToks = {"a", "b", "e", "p25", "p2F", "dbl", "uni"}
+  ReqToks = {"a", "b", "e", "p25", "p2F", "p3F", "dbl", "uni"}
   ReqMaxLen = 3
   ReqVerbs = {"", "v"}
   ReqMethods = {"GET", "POST", "DELETE"}
